@@ -97,6 +97,20 @@ fn single_word(cfg: &Cfg, grp: &str, case: u64, rep: &mut Report, m: &Modulus, a
         (false, None) => {}
         _ => rep.violation(&format!("{}|try_invert_u64_mod|reduced|value", P), format!("try_invert({},{}) -> ({},{}) expected {:?}", a, q, ok, inv, want), replay_json(cfg, grp, case, json!({"inputs": inp}))),
     }
+    // the raw-u64-modulus form of the inversion (values below 2^62: its extended gcd works on signed words)
+    {
+        let (v, md) = (a_any >> 2, (b_any >> 2).max(2));
+        let mut inv2 = 0u64;
+        if let Some(ok2) = call!(rep, cfg, grp, case, "try_invert_u64_mod_u64", cls, inp, hu::try_invert_u64_mod_u64(v, md, &mut inv2)) {
+            rep.count("per_primitive", "try_invert_u64_mod_u64");
+            let want2 = if v == 0 { None } else { refm::invmod(v % md, md) };
+            match (ok2, want2) {
+                (true, Some(w)) if inv2 == w => {}
+                (false, None) => {}
+                _ => rep.violation(&format!("{}|try_invert_u64_mod_u64|any|value", P), format!("try_invert_u64_mod_u64({},{}) -> ({},{}) expected {:?}", v, md, ok2, inv2, want2), replay_json(cfg, grp, case, json!({"inputs": inp}))),
+            }
+        }
+    }
     // gcd / xgcd / coprime on values below 2^62
     let x = a_any >> 2; let y = b_any >> 2;
     chk!(rep, cfg, grp, case, "gcd", cls, hu::gcd(x, y), refm::gcd(x, y), inp);
@@ -157,6 +171,13 @@ fn multi_word(cfg: &Cfg, grp: &str, case: u64, rep: &mut Report, rng: &mut Rng) 
         if let Some(c) = call!(rep, cfg, grp, case, "add_uint", cls, inp, hu::add_uint(&a, &b, &mut r)) { chk!(rep, cfg, grp, case, "add_uint", cls, (r.clone(), c), (want.clone(), wc), inp); }
         let mut r = a.clone();
         if let Some(c) = call!(rep, cfg, grp, case, "add_uint_inplace", cls, inp, hu::add_uint_inplace(&mut r, &b)) { chk!(rep, cfg, grp, case, "add_uint_inplace", cls, (r.clone(), c), (want.clone(), wc), inp); }
+        // the fixed two-word forms of the same addition
+        if n == 2 {
+            let mut r = vec![7u64; 2];
+            if let Some(c) = call!(rep, cfg, grp, case, "add_u128", cls, inp, hu::add_u128(&a, &b, &mut r)) { chk!(rep, cfg, grp, case, "add_u128", cls, (r.clone(), c), (want.clone(), wc), inp); }
+            let mut r = a.clone();
+            if let Some(c) = call!(rep, cfg, grp, case, "add_u128_inplace", cls, inp, hu::add_u128_inplace(&mut r, &b)) { chk!(rep, cfg, grp, case, "add_u128_inplace", cls, (r.clone(), c), (want.clone(), wc), inp); }
+        }
         for cin in 0..2u8 {
             let sum = ba.add(&bb).add_u64(cin as u64);
             let want = modpow2(&sum, n); let wc = (sum >= full) as u8;
